@@ -30,7 +30,7 @@ pub fn sys_suites() -> Vec<Suite> {
         head_len: HEAD_LEN,
         op_len: OP_LEN,
         max_ops: 24,
-        quick_cases: 3_000,
+        quick_cases: 12_000,
         thorough_cases: 300_000,
         run: run_sys,
         direct: Some(direct_with::<SimExecWithRelations>),
